@@ -543,6 +543,14 @@ def build_cases(ctx):
             cases.append(gen_h2d(r, n, "tol"))
     for n in RES:
         cases.append(every_edge_case(r, n))
+    # logarithmic axes with automatic limits over inputs that hold zeros and negative entries (they have no logarithm: they
+    # fall in no bin and must not decide the range)
+    for lx, ly in ((True, False), (False, True), (True, True)):
+        xs = [0.0, 1.0, 10.0, 100.0, 1000.0, -5.0, 3.0, 30.0]
+        ys = [2.0, 0.0, 8.0, -1.0, 64.0, 4.0, 16.0, 32.0]
+        cases.append({"level": "h2d", "lane": "tol", "res": 4, "logx": lx, "logy": ly, "xs": xs, "ys": ys, "values": [], "ops": [],
+                      "operation": None, "lim": {"xmin": None, "xmax": None, "ymin": None, "ymax": None}, "units": ["", ""],
+                      "quantity_limits": False, "tags": ["h2d", "tol", "log_auto_nonpositive"]})
     # boundary stream at volume: one bin width outside either limit, both lanes
     for _ in range(6 if not thorough else 60):
         for st in ("below1", "above1", "edge", "onebin"):
